@@ -163,6 +163,27 @@ func zeroRow(B, U, V Matrix, k int, inSitu *InSitu) {
   }
 }
 
+// B(k,k) is zero: annihilate the k-th column above the diagonal
+// by rotating the columns i = k-1, ..., p into column k
+func zeroColumn(B, U, V Matrix, p, k int, inSitu *InSitu) {
+
+  c  := inSitu.C
+  s  := inSitu.S
+  t1 := inSitu.T4
+  t2 := inSitu.T5
+
+  for i := k-1; i >= p; i-- {
+    y := B.At(i, i)
+    z := B.At(i, k)
+    givensRotation.Run(y, z, c, s)
+    givensRotation.ApplyBidiagRight(B, c, s, i, k, t1, t2)
+    if V != nil {
+      givensRotation.ApplyRight(V, c, s, i, k, t1, t2)
+    }
+    z.SetFloat64(0.0)
+  }
+}
+
 /* -------------------------------------------------------------------------- */
 
 func splitMatrix(B Matrix, q int) (int, int) {
@@ -232,6 +253,10 @@ func golubKahanSVD(inSitu *InSitu, epsilon float64) (Matrix, Matrix, Matrix, err
         if B.At(k,k).GetFloat64() == 0.0 {
           zeroRow(B, U, V, k, inSitu); t = false
         }
+      }
+      // check last diagonal element in B22
+      if t && B.At(n-q-1,n-q-1).GetFloat64() == 0.0 {
+        zeroColumn(B, U, V, p, n-q-1, inSitu); t = false
       }
       if t {
         b := B.Slice(p,n-q,p,n-q)
